@@ -20,7 +20,10 @@ Lean's `do` notation over the prelude's panic monad (lean/EG/Model/MockSrcPrelud
     the `C: ColorMapping` impls, where `C` becomes an explicit argument `(C : CT)` and `C::char_to_color` the generated
     dispatcher `ColorMapping_char_to_color C` (a `match` over the implementing types in source order);
   * `match` guards: `P if g => e` becomes `| P => if g then e else (match <same scrutinee> with <remaining arms>)`;
-  * `iter::repeat(v)` runs on explicit `fuel` (an extra first argument of `from_pattern`).
+  * `iter::repeat(v)` runs on explicit `fuel` (an extra first argument of `from_pattern`);
+  * a `map` whose closure can panic yields a LAZY iterator: its elements are computations (`List (Panics T)`), carried
+    through `chain` (the other side lifted with `iter_lift`) / `take` / `flat_map` / `enumerate` and run by the `for` loop that
+    pulls them (`let x ← x` at the head of the body); every other consumer of a lazy iterator is refused.
 The translator knows no semantics: every Rust primitive is a prelude name. Method names are resolved by the TYPE of
 the receiver (types from signatures, struct fields and a small table of prelude result types).
 
@@ -590,6 +593,8 @@ def lean_type(t):
         return "(" + " × ".join(lean_type(x) for x in t[1]) + ")"
     if t[0] in ("iter", "slice"):
         return f"(List {lean_type(t[1])})"
+    if t[0] == "lazy":
+        return f"(Panics {lean_type(t[1])})"
     if t[0] == "array":
         return f"(Cells {lean_type(t[1])})"
     if t[0] == "fn":
@@ -630,6 +635,15 @@ CMP = {"==": "rs_eq", "!=": "rs_ne", "<": "rs_lt", ">": "rs_gt", "<=": "rs_le", 
 CHECKED = {("usize", "add"), ("usize", "mul"), ("usize", "sub"), ("u8", "mul")}
 
 
+def is_lazy(t):
+    """element type of a LAZY iterator: the element is a computation (a closure of `map` that can panic), run when pulled."""
+    return isinstance(t, tuple) and t[0] == "lazy"
+
+
+def has_lazy(t):
+    return isinstance(t, tuple) and (t[0] == "lazy" or any(has_lazy(x) for x in (t[1] if t[0] == "tuple" else t[1:])))
+
+
 class Done(str):
     """a finished output line: embedded newlines (multi-line closures) already carry the line's own indentation"""
 
@@ -650,6 +664,7 @@ class Ctx:
         self.mut_self = it.self_kind == "refmut"
         self.mut_params = [n for n, t, m in it.params if m]
         self.needs_fuel = False
+        self.lifts = 0              # fallible things bound with `←` at THIS level (a nested closure has its own Ctx)
 
 
 class Emitter:
@@ -667,6 +682,7 @@ class Emitter:
 
     # -- lifting of fallible calls
     def lift(self, text, ctx, mut_call_on_self=False):
+        ctx.lifts += 1
         if ctx.mut_self and not mut_call_on_self:
             return f"(← at_state self ({text}))"
         return f"(← {text})"
@@ -674,6 +690,7 @@ class Emitter:
     def lift_mut_local(self, text, ctx):
         """a `&mut self` call on a local: the callee's panic state is dropped for the caller's"""
         st = "self" if ctx.mut_self else "()"
+        ctx.lifts += 1
         return f"(← at_state {st} ({text}))"
 
     # -- blocks
@@ -876,6 +893,10 @@ class Emitter:
                 env2 = dict(env)
                 ptx = self.pattern(pat, sty[1], env2, ctx)
                 out = [pad + f"for {ptx} in {src} do"]
+                # pulling an element of a lazy iterator runs its computation (before the body)
+                for n in sorted(k for k in env2 if is_lazy(env2[k]) and env.get(k) is not env2[k]):
+                    env2[n] = env2[n][1]
+                    out.append(pad + "  " + f"let {lv(n)} ← " + self.lift(lv(n), ctx)[3:-1])
                 out.extend(self.block(body[2], body[3], env2, ctx, ind + 1, "unit"))
                 return out
             if e[0] == "if":
@@ -1052,7 +1073,7 @@ class Emitter:
                 return f"(fun {' '.join(ps)} => do\n{body_txt})", self.closure_ret(body, env2, sub), True
             b, bty = self.expr(body, env2, sub)
             ctx.needs_fuel |= sub.needs_fuel
-            if "(←" in b:
+            if sub.lifts:
                 b = b.replace("\n", "\n    ")
                 return f"(fun {' '.join(ps)} => do\n    pure {b})", bty, True
             return f"(fun {' '.join(ps)} => {b})", bty, False
@@ -1213,7 +1234,7 @@ class Emitter:
             if aty != "bool" or bty != "bool":
                 self.fail(line, it, f"`{op}` on {aty!r}, {bty!r}")
             fn = "and" if op == "&&" else "or"
-            if "(←" in b:
+            if sub.lifts:
                 # short circuit: the right operand is a computation, run only when needed
                 b = b.replace("\n", "\n    ")
                 return self.lift(f"bool_{fn}_lazy {a} (do\n    pure {b})", ctx), "bool"
@@ -1365,6 +1386,8 @@ class Emitter:
                 return f"(slice_first {r})", ("Option", el)
             if name == "len" and not args:
                 return f"(slice_len {r})", "usize"
+        if kind == "iter" and has_lazy(el) and name not in ("chain", "take", "enumerate"):
+            self.fail(line, it, f"`{name}` on an iterator whose elements are computations (a `map` with a closure that can panic)")
         if kind == "iter":
             if name == "into_iter" and not args:
                 return f"(iter_into_iter {r})", rty
@@ -1380,9 +1403,10 @@ class Emitter:
                 res = {"filter_map": lambda: ("iter", fty[1] if isinstance(fty, tuple) else None), "map": lambda: ("iter", fty),
                        "flat_map": lambda: fty, "take_while": lambda: rty, "all": lambda: "bool"}[name]()
                 if fal:
-                    if name not in ("map", "flat_map"):
+                    # the closure can panic: the elements of the new iterator are computations, run when (and if) pulled
+                    if name != "map":
                         self.fail(line, it, f"fallible closure in `{name}`")
-                    return self.lift(f"iter_{name}_p {r} {f}", ctx), res
+                    return f"(iter_map_lazy {r} {f})", ("iter", ("lazy", fty))
                 return f"(iter_{name} {r} {f})", res
             if name == "fold" and len(args) == 2:
                 clo = args[1]
@@ -1393,7 +1417,14 @@ class Emitter:
                     self.fail(line, it, "fallible closure in `fold`")
                 return f"(iter_fold {r} {init} {f})", accty or ity
             if name == "chain" and len(args) == 1:
-                o, oty = self.expr(args[0], env, ctx, rty)
+                want_o = ("iter", el[1]) if is_lazy(el) else rty
+                o, oty = self.expr(args[0], env, ctx, want_o)
+                if not (isinstance(oty, tuple) and oty[0] == "iter"):
+                    self.fail(line, it, "`chain` with something that is not an iterator")
+                if is_lazy(el) and not is_lazy(oty[1]):
+                    return f"(iter_chain {r} (iter_lift {o}))", rty
+                if is_lazy(oty[1]) and not is_lazy(el):
+                    return f"(iter_chain (iter_lift {r}) {o})", oty
                 return f"(iter_chain {r} {o})", rty
             if name == "take" and len(args) == 1:
                 n, nty = self.expr(args[0], env, ctx, "usize")
